@@ -65,6 +65,44 @@ func corrExcl(o corrOpts) *res.Summary {
 			os.WriteFile(path, []byte(c), 0o644)
 		}
 	}
+	// a cgo package below an excluded path (the analysis sees cgo's processed copy in the build cache, whose
+	// //line directives name the original file), imported by a regular package
+	cgoN := 0
+	for i := 0; i < n && cgoN < 2; i += 7 {
+		for _, v := range []string{"a", "b"} {
+			root := fmt.Sprintf("k%d%s", i, v)
+			bind := "package bind\n\n// #include <stdlib.h>\nimport \"C\"\n\n// Handle is immutable.\n// @immutable\n// @constructor NewHandle\ntype Handle struct{ N int }\n\nfunc NewHandle() *Handle { _ = C.int(0); return &Handle{} }\n"
+			bpath := filepath.Join(dir, root, "zz_testdata_cgo", "bind.go")
+			if excluded(bpath) && v == "b" {
+				bind = neutral.Replace(bind)
+			}
+			os.MkdirAll(filepath.Dir(bpath), 0o755)
+			os.WriteFile(bpath, []byte(bind), 0o644)
+			use := "package cgouser\n\nimport bind \"exp/" + root + "/zz_testdata_cgo\"\n\nfunc Use(h *bind.Handle) {\n\th.N = 1\n\t_ = bind.Handle{}\n}\n"
+			os.MkdirAll(filepath.Join(dir, root, "cgouser"), 0o755)
+			os.WriteFile(filepath.Join(dir, root, "cgouser", "use.go"), []byte(use), 0o644)
+		}
+		cgoN++
+		sum.Count("cgo-packages-under-excluded-path")
+	}
+	// third variant "c": the excluded files nothing refers to are not there at all
+	deletable := map[string]bool{"aa_testdata_first.go": true, "gen_testdata_x.go": true, "in_test.go": true, "ext_test.go": true}
+	for root, m := range mods {
+		third := strings.TrimSuffix(root, "a") + "c"
+		for name, content := range m.Files {
+			if name == "go.mod" {
+				continue
+			}
+			if excluded(filepath.Join(dir, name)) && deletable[filepath.Base(name)] {
+				sum.Count("excluded-files-removed")
+				continue
+			}
+			c := strings.ReplaceAll(content, "exp/"+root+"/", "exp/"+third+"/")
+			path := filepath.Join(dir, third+strings.TrimPrefix(name, root))
+			os.MkdirAll(filepath.Dir(path), 0o755)
+			os.WriteFile(path, []byte(c), 0o644)
+		}
+	}
 	outs, err := runModule(dir, cfg, true, false)
 	if err != nil {
 		sum.Notes = append(sum.Notes, "batch failed: "+err.Error()[:min(len(err.Error()), 400)])
@@ -128,9 +166,35 @@ func corrExcl(o corrOpts) *res.Summary {
 				Details: fmt.Sprintf("only with the excluded files' annotations: %v; only without: %v", x[:min(len(x), 5)], y[:min(len(y), 5)])})
 		}
 	}
+	// (d) without the unreferenced excluded files: the same diagnostics
+	for root, a := range byRoot {
+		if !strings.HasSuffix(root, "a") {
+			continue
+		}
+		c, ok := byRoot[strings.TrimSuffix(root, "a")+"c"]
+		if !ok {
+			continue
+		}
+		sum.Count("removed-file-comparisons")
+		var la, lc []string
+		for k := range a {
+			la = append(la, k)
+		}
+		for k := range c {
+			lc = append(lc, k)
+		}
+		sort.Strings(la)
+		sort.Strings(lc)
+		x, y := diffSets(la, lc)
+		if len(x)+len(y) > 0 {
+			sum.Disagree(res.Disagreement{Kind: "impl-vs-spec", Input: fmt.Sprintf("excl seed=%d [%s] program %s vs %s", o.seed, cfg.String(), root, strings.TrimSuffix(root, "a")+"c"), Impl: strings.Join(la, " ")[:min(300, len(strings.Join(la, " ")))], Model: "same diagnostics as the program without its (unreferenced) excluded files",
+				Clause:  "C14: excluded files have no influence on the diagnostics of other files (GGV.Props.C14.excluded_inert)",
+				Details: fmt.Sprintf("only with the excluded files present: %v; only without them: %v", x[:min(len(x), 5)], y[:min(len(y), 5)])})
+		}
+	}
 	if len(outs) > 0 {
 		sum.Sample(fmt.Sprintf("config %s: %d package variants, e.g. %s => %v", cfg.String(), len(outs), outs[0].pkgID, outs[0].impl), 3)
 	}
-	sum.Rule = "generated programs with regular, in-package _test.go, external test package and excluded-token files carrying annotations, @ignore comments and violations, under this process's configuration (the check runs default, scan-tests, custom exclude-paths, and both); (a) no reported position in an excluded file, (b) twin with the excluded files' annotations neutralised reports the same in all other files, (c) no TONL in test files; non-trivial = programs with diagnostics"
+	sum.Rule = "generated programs with regular, in-package _test.go, external test package and excluded-token files carrying annotations, @ignore comments and violations, under this process's configuration (the check runs default, scan-tests, custom exclude-paths, and both); (a) no reported position in an excluded file, (b) twin with the excluded files' annotations neutralised reports the same in all other files, (c) no TONL in test files, (d) a third rendering without the unreferenced excluded files (one of them sorting first in its package) reports the same; two cgo packages below an excluded path with an importer; non-trivial = programs with diagnostics"
 	return sum
 }
